@@ -39,6 +39,21 @@ def work(tasks, idx):
             a, e, _ = faults.build_assertion(c, counter=cnt, stored=s, flags=fl, attested_aaguid=aag,
                                              attachment=[None, "platform", "cross-platform"][(s + cnt + fl) % 3])
             e["stored_count"] = s
+            # the RP's stored counter in the numeric types a database layer hands back: the rule is about its value
+            import decimal, fractions
+            shape = (s + cnt + fl) % 6
+            if shape in (1, 2, 3, 4):
+                class _IntSub(int):
+                    pass
+                typed = [None, decimal.Decimal(s), fractions.Fraction(s), _IntSub(s), float(s) if s < 2 ** 53 else s][shape]
+                code_t = cases.run_auth(a, dict(e, stored_count=typed))
+                res.evaluations += 1
+                res.count("stored-counter-type:" + type(typed).__name__)
+                expect_t = cnt > s or (cnt == 0 and s == 0)
+                if (code_t["k"] == "accept") != expect_t and code_t["k"] == "accept":
+                    res.violations.append({"why": f"accepted with counter {cnt} against stored {typed!r} ({type(typed).__name__})",
+                                           "case": cases.auth_case(a, e), "code": code_t,
+                                           "match": {"op": "verify_auth", "conjunct": "counter", "stored_type": type(typed).__name__}})
             code = _auth.eval_auth(tie, res, a, e, label=["pair", s, cnt])
             expect = cnt > s or (cnt == 0 and s == 0)
             res.nontrivial.add(("pair", s, cnt, fl))
